@@ -16,6 +16,12 @@ theorem tables_canon : ∀ t ∈ implTables, Canon t.2 := by decide +kernel
 for all 0x110000 code points (list equality; hence equal membership for every code point) -/
 theorem impl_eq_unicodedata : implTables = oracleTables := by decide +kernel
 
+/-- the tables the package builds by itself from `unicodedata` when a Unicode version older than the
+shipped data is installed (`categories_fallback`, here through `UnicodeData('12.1.0')`) are equal to
+the oracle as well, and canonical -/
+theorem fallback_eq_unicodedata : fallbackTables = oracleTables := by decide +kernel
+theorem fallback_canon : ∀ t ∈ fallbackTables, Canon t.2 := by decide +kernel
+
 theorem impl_mem_eq_unicodedata (k : String) (x : Nat) :
     ∀ a b, (k, a) ∈ implTables → (k, b) ∈ oracleTables → a = b → (memL x a ↔ memL x b) := by
   intro a b _ _ h; rw [h]
